@@ -1,14 +1,16 @@
 /-
-  General facts about `eval` that the quasiquote theorem needs (`EvalFacts` of Proofs/QQ.lean), for
-  all 13 functions of the `mutual` block of Eval.lean at once: under the standard side conditions
-  (debugger off, context never cancelled) a result other than out-of-fuel
+  General facts about `eval` that the quasiquote theorems need (`EvalFacts` of Proofs/QQ.lean), for
+  all 13 functions of the `mutual` block of Eval.lean at once.  Under the standard side conditions
+  (debugger off, context never cancelled), at every fuel:
 
-  * is stable under more fuel,
-  * does not observe the poll counter (`addTicks j` before = `addTicks j` after),
-  * leaves a state that satisfies the standard side conditions again.
+  * extra polls before = the same extra polls after, whatever the outcome (the poll counter is not
+    observed);
+  * an outcome other than out-of-fuel is stable under more fuel and leaves a state that satisfies the
+    standard side conditions again.
 
   Method: every function body is a composition of `bindR` (propagate error / out-of-fuel) and a few
-  other combinators; `Good` is closed under them; induction on the fuel.
+  other combinators (`mapErrR`, `catchR`, `finR`, pure steps); `Good` is closed under them; induction
+  on the fuel (`allGood`).  Then the closed forms of the quasiquote theorems.
   Core Lean only.
 -/
 import LispModel.Proofs.QQ
